@@ -48,7 +48,7 @@ def marker_fn(val):
 
 def value_for(role, scope_val, dotted=0):
     """Object bound to the name in a scope."""
-    if role in ("arg", "bqarg"):
+    if role in ("arg", "bqarg", "kwarg", "nested"):
         return scope_val
     fn = marker_fn(scope_val)
     if dotted == 1:
@@ -67,6 +67,10 @@ def run_config(cfg):
     ident = name.isidentifier()
     if role == "arg":
         formula = f"y ~ 0 + fmc_probe({name})"
+    elif role == "kwarg":
+        formula = f"y ~ 0 + fmc_probe(v={name})"
+    elif role == "nested":
+        formula = f"y ~ 0 + fmc_probe(fmc_ident({name}))"
     elif role == "bqarg":
         formula = f"y ~ 0 + fmc_probe(`{name}`)"
     else:
@@ -81,7 +85,7 @@ def run_config(cfg):
     if "data" in subset:
         cols[name] = MARK["data"] if role != "callee" else [7.0] * N  # for callees a column of that name is a decoy
     df = data_frame(cols)
-    extra = {"fmc_probe": fmc_probe}
+    extra = {"fmc_probe": fmc_probe, "fmc_ident": (lambda v: v)}
     if "extra" in subset:
         extra[name] = value_for(role, vals["extra"], dotted)
     # nested callers f3 -> f2 -> f1 -> f0 -> design_matrices(env=k); frame i provides locals_i / globals_i
@@ -120,7 +124,7 @@ def run_config(cfg):
 
 def expected(cfg):
     role, subset, name = cfg["role"], cfg["subset"], cfg["name"]
-    order = ["data", "builtin", "local", "global", "extra"] if role in ("arg", "bqarg") else ["builtin", "local", "global", "extra"]
+    order = ["data", "builtin", "local", "global", "extra"] if role in ("arg", "bqarg", "kwarg", "nested") else ["builtin", "local", "global", "extra"]
     defined = set(subset)
     if name == "scale":
         defined.add("builtin")
@@ -128,7 +132,7 @@ def expected(cfg):
         defined.discard("local")
     for s in order:
         if s in defined:
-            if cfg.get("none") and s in ("local", "global", "extra") and s == next((t for t in ("local", "global", "extra") if t in defined and t in subset), None) and role in ("arg", "bqarg"):
+            if cfg.get("none") and s in ("local", "global", "extra") and s == next((t for t in ("local", "global", "extra") if t in defined and t in subset), None) and role in ("arg", "bqarg", "kwarg", "nested"):
                 return ("value", -1.0)
             return ("value", MARK[s])
     return ("raises", None)
@@ -145,6 +149,9 @@ def configs():
                 if any(s in sub for s in ("local", "global", "extra")):
                     out.append({"role": "arg", "name": name, "k": k, "subset": sub, "none": True})
                 out.append({"role": "callee", "name": name, "k": k, "subset": sub})
+                out.append({"role": "kwarg", "name": name, "k": k, "subset": sub})
+                if k in (0, 2):
+                    out.append({"role": "nested", "name": name, "k": k, "subset": sub})
         sub3 = [list(c) for n in range(4) for c in itertools.combinations(["local", "global", "extra"], n)]
         for sub in sub3:
             out.append({"role": "callee", "name": "ns", "k": k, "subset": sub, "dotted": 1})
